@@ -4,7 +4,6 @@ import (
 	"fmt"
 	"strings"
 
-	"github.com/gnolang/gno/tm2/pkg/db/memdb"
 	"github.com/gnolang/gno/tm2/pkg/std"
 	"verif/engine/chainx"
 )
@@ -215,12 +214,17 @@ func (w *mworld) attempt(mc mcase, first string) bool {
 		// the deployed package records what its own initialisation saw after the statement
 		var src string
 		if mc.form == "varinit" {
-			src = fmt.Sprintf("package i%s\n\n%svar own = 3\n\nvar Seen = func() string {\n\t%s\n\t_ = own\n\treturn x.Snapshot()\n}()\n\nfunc GetSeen(cur realm) string { return Seen }\n", tag, imp, mc.a.stmt)
+			src = fmt.Sprintf("package v%s\n\n%svar own = 3\n\nvar Seen = func() string {\n\t%s\n\t_ = own\n\treturn x.Snapshot()\n}()\n\nfunc GetSeen(cur realm) string { return Seen }\n", tag, imp, mc.a.stmt)
 		} else {
-			src = fmt.Sprintf("package i%s\n\n%svar own = 3\n\nvar Seen string\n\nfunc init() {\n\t%s\n\t_ = own\n\tSeen = x.Snapshot()\n}\n\nfunc GetSeen(cur realm) string { return Seen }\n", tag, imp, mc.a.stmt)
+			pk := "i"
+			if mc.form != "init" {
+				pk = "s"
+			}
+			src = fmt.Sprintf("package "+pk+"%s\n\n%svar own = 3\n\nvar Seen string\n\nfunc init() {\n\t%s\n\t_ = own\n\tSeen = x.Snapshot()\n}\n\nfunc GetSeen(cur realm) string { return Seen }\n", tag, imp, mc.a.stmt)
 		}
 		class = "rejected"
-		path := "gno.land/r/aa/i" + tag
+		pfx := map[string]string{"init": "i", "varinit": "v", "init-then-read-in-same-tx": "s"}[mc.form]
+		path := "gno.land/r/aa/" + pfx + tag
 		if mc.form == "init-then-read-in-same-tx" {
 			// one tx, two messages: the deployment, then a read of the /p/ state through the reader realm
 			w.c.BeginBlock()
@@ -240,7 +244,7 @@ func (w *mworld) attempt(mc mcase, first string) bool {
 			}
 			break
 		}
-		if !deploy("i", src) {
+		if !deploy(pfx, src) {
 			break
 		}
 		class = "ran-without-error"
@@ -249,7 +253,12 @@ func (w *mworld) attempt(mc mcase, first string) bool {
 			r.HarnessError("GetSeen: %s", log)
 		}
 		if data != w.snap {
-			r.Violation("p-package-state-mutated-within-tx:"+mc.id(), map[string]any{"first_attempt_on_this_package": first, "history": append([]string{}, w.hist...),
+			key := "p-package-state-mutated-within-tx:" + mc.id()
+			if strings.HasPrefix(mc.a.id, "method-") {
+				// one root cause (see NOTES.md): the immutability gate exempts every StageAdd write reached through a method on a /p/ receiver
+				key = "p-package-state-transiently-mutated-by-method-call-during-another-package-initialisation"
+			}
+			r.Violation(key, map[string]any{"case": mc.id(), "first_attempt_on_this_package": first, "history": append([]string{}, w.hist...),
 				"statement": mc.a.stmt, "snapshot_before": w.snap, "snapshot_seen_by_the_deploying_package_after_the_statement": data, "p_package": w.pxPath})
 			r.Outcome("mutation:" + mc.id() + ":MUTATED-IN-TX")
 		}
@@ -274,15 +283,19 @@ func mutationPart() {
 	}
 	r.Sample(map[string]any{"mutation_cases": len(cases), "example": cases[3].id() + ": " + cases[3].a.stmt})
 	nw := func() *mworld {
-		c, err := chainx.New(memdb.NewMemDB(), chainx.Spec{Keys: keys, Fund: 1_000_000_000_000_000, MaxGas: -1})
+		c, err := chainx.New(chainx.NewMemPebble(), chainx.Spec{Keys: keys, Fund: 1_000_000_000_000_000, MaxGas: -1})
 		if err != nil {
 			r.HarnessError("chain init: %v", err)
 		}
 		nChains.Add(1)
 		return &mworld{c: c}
 	}
-	r.ParFor(len(forms)+2, func(i int) {
+	r.ParFor(len(forms)+3, func(i int) {
 		w := nw()
+		if i == len(forms)+2 {
+			escalation(w)
+			return
+		}
 		if i < len(forms) {
 			for _, mc := range cases {
 				if mc.form != forms[i] {
@@ -309,4 +322,36 @@ func mutationPart() {
 			}
 		}
 	})
+}
+
+// escalation: does the transient /p/ mutation matter? A victim realm guards a state-changing function with a
+// flag that lives in /p/ state (S.F == 9, which no transaction can ever set persistently). The attacker's package
+// sets the flag through a method during its own initialisation and calls the victim in the same initialisation.
+func escalation(w *mworld) {
+	w.fresh()
+	vic := fmt.Sprintf("package vic\n\nimport x %q\n\nvar Hits int\n\nfunc Priv(cur realm) int {\n\tif x.S.F != 9 {\n\t\tpanic(\"denied: /p/ flag not set\")\n\t}\n\tHits++\n\treturn Hits\n}\n\nfunc GetHits(cur realm) int { return Hits }\n", w.pxPath)
+	if _, ok, log := w.tx(chainx.AddPkg(A.Addr, "gno.land/r/aa/vic", map[string]string{"vic.gno": vic})); !ok {
+		r.HarnessError("deploy victim: %s", log)
+	}
+	if _, ok, _ := w.tx(chainx.Call(U.Addr, nil, "gno.land/r/aa/vic", "Priv")); ok {
+		r.HarnessError("victim guard does not hold without mutation")
+	}
+	before, _, _ := w.tx(chainx.Call(U.Addr, nil, "gno.land/r/aa/vic", "GetHits"))
+	att := fmt.Sprintf("package att\n\nimport (\n\tx %q\n\t\"gno.land/r/aa/vic\"\n)\n\nfunc init(cur realm) {\n\tx.S.Set(9)\n\tvic.Priv(cross(cur))\n}\n", w.pxPath)
+	_, ok, log := w.tx(chainx.AddPkg(U.Addr, "gno.land/r/aa/att", map[string]string{"att.gno": att}))
+	w.hist = append(w.hist, "deploy(victim guarded by /p/ flag)", "call(victim.Priv) -> denied", "deploy(attacker: init sets the flag via x.S.Set(9), then calls victim.Priv)")
+	after, _, _ := w.tx(chainx.Call(U.Addr, nil, "gno.land/r/aa/vic", "GetHits"))
+	r.Eval()
+	r.Distinct("mut|escalation")
+	if !ok {
+		r.Outcome("escalation:attacker-deploy-rejected")
+		_ = log
+	} else if after != before {
+		r.Outcome("escalation:VICTIM-STATE-CHANGED")
+		r.Violation("transient-p-mutation-during-init-escalates-to-persistent-write-in-another-realm", map[string]any{"history": w.hist,
+			"victim_hits_before": before, "victim_hits_after": after, "victim_source": vic, "attacker_source": att, "p_package": w.pxPath})
+	} else {
+		r.Outcome("escalation:deployed-but-victim-unchanged")
+	}
+	w.observe(mcase{"escalation", attempt{"escalation", "x.S.Set(9); vic.Priv(cross(cur))"}, 0}, "escalation")
 }
